@@ -333,7 +333,7 @@ int main(int argc, char **argv) {
     if (is_symmetric_image(cfg, sc, scripts, si)) { if (rdepth == depth) printf("@INFO cfg%d/script%d(e%d:%s->e%d): skipped, image of an earlier script under a renaming of identical events\n", cfg, si, sc.e, aN[sc.act], sc.tgt); continue; }
     hx::Explorer<Op> ex; char nm[128]; snprintf(nm, sizeof nm, "cfg%d/%sscript%d(e%d:%s->e%d)", cfg, lane ? "life-cycle/" : "", si, sc.e, aN[sc.act], sc.tgt); ex.name = nm;
     ex.deadline_s = deadline; ex.fork_workers = 0 /* the run function forks by itself, see below */; ex.check_replay_determinism = false; ex.part = part; ex.nparts = nparts;
-    ex.show = [](const Op &o) { char b[40]; snprintf(b, sizeof b, "%s(%d)", kN[o.k], o.a); return std::string(b); };
+    ex.show = [](const Op &o) { char b[64]; snprintf(b, sizeof b, "%s(%d)", kN[o.k], o.a); return std::string(b); };
     ex.menu = [&](const std::vector<Op> &h) {
       // harness-side facts that do not involve the code under test: a pipe that already holds a byte is not fed again, an empty one is not drained
       // (once a descriptor has been replaced the harness no longer knows which pipe holds what, and offers everything)
